@@ -73,6 +73,7 @@ macro_rules! huffman_harness {
             // out of alphabet
             let t: usize = any(); assume(t >= N);
             assert!(enc.encode_symbol_suffix(t, |_b| Result::<(), Infallible>::Ok(())).is_err(), "C15: symbol outside the alphabet accepted");
+            assert!(enc.encode_symbol_prefix(t, |_b| Result::<(), Infallible>::Ok(())).is_err(), "C15: symbol outside the alphabet accepted (prefix form)");
             cover!(w[0] == w[N - 1], "tie or single symbol");
         }
     };
@@ -102,3 +103,7 @@ pub fn f32_n3() {
         match r { Ok(x) => assert!(x == s && used == lp, "C15: float decoder tree does not invert the float encoder tree"), Err(_) => assert!(false, "C15: decoding a float codeword failed") }
     }
 }
+
+// A 4-symbol f32 harness (weights from {2^-25, 1, 1 + 2^-23, 2}, chosen so that sums round differently in f32 and
+// f64) was tried with four and with two symbolic weights: neither finished in 15-40 min (CBMC float adders inside the
+// binary-heap merge).  Float codebooks beyond 3 symbols are out of reach here; see DESIGN.md.
